@@ -49,6 +49,7 @@ class Context:
         self.axioms = []        # ground axiom instances (z3 Bool)
         self.axiom_log = []     # names of axiom schemes used
         self.side = []          # (label, z3 Bool that must hold, pc snapshot len)
+        self.breaches = []      # preconditions of library contracts that the caller does not establish for every admissible input
         self.fresh = itertools.count()
         self.feas_timeout_ms = feas_timeout_ms
         self.abstractions = []
